@@ -11,12 +11,24 @@ func New(config ...Config) fiber.Handler {
 	// Set default config
 	cfg := configDefault(config...)
 
+	// Marks a request this instance is already working on
+	inProgress := new(byte)
+
 	// Return new handler
 	return func(c fiber.Ctx) error {
 		// Don't execute middleware if Next returns true
 		if cfg.Next != nil && cfg.Next(c) {
 			return c.Next()
 		}
+
+		// RestartRouting (a handler, the rewrite middleware) runs the stack again from the top, inside the first pass:
+		// the request cookies are decrypted by then - a second decryption would blank them - and the response cookies
+		// are encrypted, once, when the first pass returns.
+		if busy, _ := c.Locals(inProgress).(bool); busy { //nolint:errcheck // absent or false: not in progress
+			return c.Next()
+		}
+		c.Locals(inProgress, true)
+		defer c.Locals(inProgress, false)
 
 		// Decrypt request cookies: name, value pairs - the first entry of every name that is not excepted,
 		// decrypted, or empty if it is not a value this middleware issued
